@@ -52,13 +52,33 @@ def ltxt(legs):
 
 
 def signature(morphs):
-    """known-finding signature: some single leg lies in the F2-span of the other single legs of its graph"""
+    """known-finding signature: a canonical single leg is the product of other single legs of its graph, and every
+    such relation needs at least five other legs.  (Relations through three other legs are detected by the
+    unchanged library's check_dependency_one_leg; if one of those slips through it is a different defect.)"""
+    import itertools
+    found = False
     for m in morphs:
         singles = [leg[0] for leg in m["legs"][1:] if len(leg) == 1]
-        for i, s in enumerate(singles):
-            if G.in_span(G.vec(s), [G.vec(t) for j, t in enumerate(singles) if j != i]):
-                return "single-leg-in-span-of-single-legs"
-    return None
+        vecs = [G.vec(s) for s in singles]
+        for i, v in enumerate(vecs):
+            others = [w for j, w in enumerate(vecs) if j != i]
+            if not G.in_span(v, others):
+                continue
+            # minimal number of other single legs whose product is this leg
+            best = None
+            for k in range(1, len(others) + 1):
+                for sub in itertools.combinations(others, k):
+                    x = 0
+                    for w in sub:
+                        x ^= w
+                    if x == v:
+                        best = k; break
+                if best:
+                    break
+            if best is not None and best < 5:
+                return None
+            found = True
+    return "single-leg-in-span-of-single-legs" if found else None
 
 
 def check_star_tie(ck, dist, with_dim=False):
